@@ -43,7 +43,7 @@ fn spec(tier: Tier) -> CheckSpec {
 		level: "exploration",
 		rule: format!(
 			"exhaustive over configurations of a program family that reads its configuration (external variables, top-level arguments, an imported library file, a recursion of 25 frames, an optional runtime error): (cli) {} — external variables x top-level arguments each in every subset of the flavours {{string, code, string-from-file, code-from-file}}, top-level function with defaulted parameters and no arguments, -J lists over two directories with shadowing, input as file / -e / stdin, output {{json, -S, -y, -f yaml|toml|xml-jsonml|ini|string|json, -m dir, -o file, --line-padding 1}}, --max-stack {{default, 20}}, value and error variants: the real `jrsonnet` executable's stdout (and the files written by -m / -o) equal the manifestation computed through the library API for the same configuration, exit status 0 exactly when the library reports success, non-empty stderr otherwise; (capi) {} of {{ext_var, ext_code, tla_var, tla_code}} subsets x jpath lists x max_stack x string_output x import callback x native callbacks x the six jsonnet_evaluate_* entry points x value/error variants through a C driver linked against the built libjsonnet.so: printed result (double-NUL framing decoded) and error flag equal the library's; (deps) for every one of 26 syntactic positions an import can stand in (array, field, hidden field, computed field name, object local, object assert, parameter default, local, positional and named call argument, conditional, assert, error, comprehension, object extension, index, slice, unary operand) x import kind, and for every import digraph on three files with strict / lazy / never-read / importstr / importbin edges ({} graphs), `jrsonnet-deps` lists exactly the statically reachable files, which include every file an evaluation loads. non-trivial = distinct configuration executed",
-			tier.q("pairwise-complete grid (every pair of dimensions fully crossed around a base configuration)", "the full cross product"),
+			tier.q("pairwise-complete grid (every pair of dimensions fully crossed around a base configuration)", "the pairwise-complete grid plus the full product of {ext, tla, defaulted parameters, input, output, variant} and the full product of {search path, input, output, stack limit, variant}"),
 			tier.q("pairwise-complete grid", "full cross product"),
 			tier.q(4096, 46656)
 		),
@@ -408,16 +408,21 @@ fn first_difference_dim(c: &Cfg) -> String {
 
 fn cli_configs(tier: Tier) -> Vec<Cfg> {
 	let mut out = Vec::new();
-	if tier == Tier::Thorough {
-		for_each_product(&[16, 16, 2, 5, 3, OUT_MODES.len(), 2, 3], |_, c| {
-			out.push(Cfg { ext: c[0] as u8, tla: c[1] as u8, tla_defaults: c[2] == 1, jpaths: c[3], input: c[4], out: c[5], max_stack_20: c[6] == 1, variant: c[7] });
-		});
-		return out;
-	}
-	// quick: every pair of dimensions fully crossed, the others at their base value
+	// every pair of dimensions fully crossed, the others at their base value
 	let dims: [usize; 8] = [16, 16, 2, 5, 3, OUT_MODES.len(), 2, 3];
 	let basev: [usize; 8] = [0, 0, 0, 1, 0, 0, 0, 0];
 	let mut seen: BTreeSet<Vec<usize>> = BTreeSet::new();
+	if tier == Tier::Thorough {
+		// thorough: additionally the full product of the six dimensions that decide what is computed and printed
+		// (ext, tla, defaulted parameters, input, output, variant), the search path and the stack limit at their base
+		for_each_product(&[16, 16, 2, 3, OUT_MODES.len(), 3], |_, c| {
+			seen.insert(vec![c[0], c[1], c[2], 1, c[3], c[4], 0, c[5]]);
+		});
+		// and the full product of search path x input x output x stack limit x variant without variables
+		for_each_product(&[5, 3, OUT_MODES.len(), 2, 3], |_, c| {
+			seen.insert(vec![0, 0, 0, c[0], c[1], c[2], c[3], c[4]]);
+		});
+	}
 	for a in 0..8 {
 		for b in (a + 1)..8 {
 			for x in 0..dims[a] {
